@@ -37,7 +37,7 @@ import (
 )
 
 const preamble = `From Coq Require Import String List NArith ZArith Bool.
-From Fabio Require Import Lib.Outcome Lib.Bytes Lib.Pack Model.Headers Model.HeadersSpec Model.HeaderLines Check.C08.
+From Fabio Require Import Lib.Outcome Lib.Bytes Lib.Pack Model.Headers Model.HeadersSpec Model.HeaderLines Model.HeadersRouted Check.C08.
 Import ListNotations.
 Local Open Scope N_scope.
 `
@@ -1101,6 +1101,9 @@ func main() {
 	// header LINES with empty / blank X-Forwarded-For values, to the upstream's end of the wire
 	// through a real http.Transport / the websocket handler (lines.go; a rand source of its own)
 	runLineClasses(run, ws, plainFront, tlsFront, addCase, serveCase)
+	// the same forwarding paths behind the REAL routing stage: Table.Lookup of a route.NewTable table,
+	// AccessDeniedHTTP, Authorized (routed.go; a rand source of its own)
+	runRoutedClasses(run, ws, plainFront, tlsFront)
 	run.Notes["websocket_upstream"] ="loopback listener, one connection per websocket case"
 	run.Notes["real_connections"] = "net/http server on loopback (plain and TLS), raw-bytes client; r.TLS / RemoteAddr / Host / header canonicalisation from net/http"
 	run.Finish(preamble, run.Scale(140, 600))
